@@ -26,7 +26,10 @@ from .c10 import stock_cases
 PID = "C05"
 QUICK = ["kundur/kundur_full.json", "ieee14/ieee14_full.xlsx", "ieee39/ieee39_full.xlsx", "5bus/pjm5bus.json", "kundur/kundur_aw.json",
          "ieee14/ieee14_pvd1.json", "ieee14/ieee14_solar.xlsx", "wecc/wecc_full.xlsx", "ieee14/ieee14_zip.json", "kundur/kundur_vsc.xlsx",
-         "ieee14/ieee14_esst3a.xlsx", "npcc/npcc.xlsx", "ieee14/ieee14_esdc1a.xlsx", "kundur/kundur_islands.json"]
+         "ieee14/ieee14_esst3a.xlsx", "npcc/npcc.xlsx", "ieee14/ieee14_esdc1a.xlsx", "kundur/kundur_islands.json",
+         "ieee14/ieee14_exac1.json", "ieee14/ieee14_esac1a.xlsx", "ieee14/ieee14_ac8b.xlsx", "ieee14/ieee14_esst1a.xlsx"]
+# cases whose controllers have iteratively initialised variables come first in the out-of-service variants
+ITER_INIT = ["ieee14/ieee14_exac1.json", "ieee14/ieee14_esac1a.xlsx", "ieee14/ieee14_ac8b.xlsx", "ieee14/ieee14_esst1a.xlsx"]
 
 
 def run(tier):
@@ -57,11 +60,13 @@ def run(tier):
     # variants of the cases that initialise and stay as shipped: one controller / measurement device out of service, and
     # the documented load-model weights (constant power / current / impedance shares, P and Q chosen independently)
     good = []
+    at_limit = {}
     for t, x in zip(tasks, res):
         if t["kind"] == "stock" and x["status"] == "ok" and "skipped" not in x["result"]:
             ev0 = x["result"]["ev"]
             if ev0 and not ev0[0]["raised"] and ev0[0]["test_ok"] and ev0[-1].get("e") == "flat" and ev0[-1]["stays"]:
                 good.append(t["case"])
+                at_limit[t["case"]] = ev0[0].get("at_limit", [])
     variants = []
     from ..common import andes_mod
     andes_mod()
@@ -74,11 +79,12 @@ def run(tier):
     for k, c in enumerate(good[:(5 if quick else 40)]):
         for w in (WEIGHTS[k % 2::2] if quick else WEIGHTS):
             variants.append(dict(kind="stock", case=c, sid="stock[%s|PQ weights %s]" % (c, ",".join("%s=%s" % kv for kv in sorted(w.items()))),
-                                 pq_weights=w, baseline_ok=True, probes=False, flat=False))
-    for c in good[:(8 if quick else 60)]:
+                                 pq_weights=w, baseline_ok=True, baseline_at_limit=at_limit[c], probes=False, flat=False))
+    good_first = [c for c in good if c in ITER_INIT] + [c for c in good if c not in ITER_INIT]
+    for c in good_first[:(8 if quick else 60)]:
         for m in ctrl_models:
             variants.append(dict(kind="stock", case=c, sid="stock[%s|first %s out of service]" % (c, m), offline=m, baseline_ok=True,
-                                 probes=False, flat=False))
+                                 baseline_at_limit=at_limit[c], probes=False, flat=False))
     vres = run_tasks("vh.initdrv:task", variants, nproc=NCPU, timeout=1200)
     tasks = tasks + variants
     res = res + vres
@@ -103,7 +109,7 @@ def run(tier):
             continue
         ev = []
         for e in r_["ev"]:
-            e2 = {k: v for k, v in e.items() if k not in ("raised_text", "worst", "maxfg")}
+            e2 = {k: v for k, v in e.items() if k not in ("raised_text", "worst", "maxfg", "at_limit")}
             ev.append(e2)
         traces.append(dict(meta=dict(tid=len(traces) + 1, sid=t["sid"]), ev=ev, detail=r_["ev"]))
     verdicts, tl = tracecheck.validate([dict(meta=t["meta"], ev=t["ev"]) for t in traces], "Trace_Init")
@@ -121,7 +127,11 @@ def run(tier):
             if e["e"] == "flat":
                 drifts[t["meta"]["sid"]] = e["drift_ppm"]
         for cl in v["viol"]:
-            rep.violation("%s:%s" % (cl, t["meta"]["sid"]), "clause %s fails for %s: %s" % (cl, t["meta"]["sid"], json.dumps(t["detail"])[:300]),
+            # a controller out of service that does not initialise is one input class per model, whatever the case
+            ksid = t["meta"]["sid"]
+            if "|first " in ksid and ksid.endswith("out of service]"):
+                ksid = "out_of_service[%s]" % ksid.split("|first ")[1].split(" ")[0]
+            rep.violation("%s:%s" % (cl, ksid), "clause %s fails for %s: %s" % (cl, t["meta"]["sid"], json.dumps(t["detail"])[:300]),
                           replay=dict(sid=t["meta"]["sid"], records=t["detail"]))
     rep.extra["max_drift_ppm_of_cases_that_stay"] = max([v for v in drifts.values() if v <= 1000] or [0])
     rep.extra["cases_reporting_failed_initialisation"] = [t["meta"]["sid"] for t in traces if not t["detail"][0].get("test_ok", True)]
